@@ -145,7 +145,8 @@ impl Callable for Index {
                 .ok_or_else(|| err_msg("NativeObject does not implement Indexible"))?,
             _ => bail!("type mismatch"),
         };
-        obj.get(index)?.value_of(ctx)
+        // the checker types the member with real_type_of, so hand out the real value as well
+        obj.get(index)?.real_value_of(ctx)
     }
 }
 
@@ -390,7 +391,7 @@ impl Callable for IsMemberOf {
     fn call(&self, ctx: ScriptContextRef, args: &[Value]) -> Result<Value, Error> {
         args!(args, ctx = ctx, a, ary);
         let vec: Arc<Vec<Value>> = ary.try_into()?;
-        let iter = vec.iter().map(|v| v.value_of(ctx.clone()));
+        let iter = vec.iter().map(|v| v.real_value_of(ctx.clone()));
         for v in iter {
             if v? == a {
                 return Ok(true.into());
